@@ -11,7 +11,8 @@ Line-protocol glue for C03.  Annotated trees (`DInfo`) are the trees of `DTypes.
 `"unit"`, `"fmt"` on `double` / `scaled` and `"name"` on `enum`.
 
   {"k":"rebuild","di":T,"impl":{"built":b,"datainfo":J|null,"datainfo2":J|null,"tree2":T|null,"probes":[{"o":O,"d":O},..]}}
-      → {"model":{"datainfo":J|err,"tree2":T|err,"datainfo2":J|err},"judge":[..]}
+      → {"model":{"datainfo":J|err,"tree2":T|err,"datainfo2":J|err,"classes":S},"judge":[..]}
+      (S = the classes of the rebuilt / copied tree: "leaf"|"text"|"status"|{"array":S}|{"tuple":[S..]}|{"limits":S}|{"struct":[[k,S]..]})
   {"k":"get","json":J}                          → {"model": T | "bad"}                       (malformed datainfo stream)
   {"k":"copy","di":T,"impl":{…as rebuild…,"shared":[kinds],"before":J,"after":J,"mprobes":[{"o":O,"d":O},..]}}
       → {"model":{"tree2":T|err,"shared":[..]},"judge":[..]}
@@ -108,6 +109,15 @@ partial def ctypeOfJson (j : Json) : R (CType Float) := do
   | _, "" => return .leaf (← dtypeOfJson j)
   | _, c => throw s!"class mark {c} on a node of kind {t}"
 
+partial def skelToJson : Skel → Json
+  | .leaf => .str "leaf"
+  | .text => .str "text"
+  | .status => .str "status"
+  | .array e => Json.mkObj [("array", skelToJson e)]
+  | .tuple es => Json.mkObj [("tuple", jarr (es.map skelToJson))]
+  | .limits m => Json.mkObj [("limits", skelToJson m)]
+  | .struct ms => Json.mkObj [("struct", jarr (ms.map (fun (k, v) => jarr [.str k, skelToJson v])))]
+
 def errToJson : Err → Json
   | .other c => Json.mkObj [("other", .str c)]
   | _ => .str "bad"
@@ -176,9 +186,10 @@ def handle (j : Json) : R Json := do
     let ex2 : Except Err (JVal Float) := match rebuilt with
       | .ok t' => exportDatatype consts t'
       | .error e => .error e
+    let c ← ctypeOfJson (← fld j "di")
     return Json.mkObj [
       ("model", Json.mkObj [("datainfo", exToJson jvalToJson ex), ("tree2", exToJson dinfoToJson rebuilt),
-        ("datainfo2", exToJson jvalToJson ex2)]),
+        ("datainfo2", exToJson jvalToJson ex2), ("classes", skelToJson (rebuildC c).skel)]),
       ("wf", .bool t.erase.wfB),
       ("judge", jstrs (judgeDerived (← derivedOfJson impl)))]
   | "get" =>
@@ -193,8 +204,10 @@ def handle (j : Json) : R Json := do
       before := (← optJVal impl "before").getD .null
       after := (← optJVal impl "after").getD .null
       probes := ← probesOfJson impl "mprobes" }
+    let ct ← ctypeOfJson (← fld j "di")
     return Json.mkObj [
-      ("model", Json.mkObj [("tree2", exToJson dinfoToJson c), ("shared", jstrs (Heap.sharedKinds consts t))]),
+      ("model", Json.mkObj [("tree2", exToJson dinfoToJson c), ("shared", jstrs (Heap.sharedKinds consts t)),
+        ("classes", skelToJson (copyC ct).skel)]),
       ("wf", .bool t.erase.wfB),
       ("judge", jstrs (judgeDerived (← derivedOfJson impl) ++ judgeMutation m))]
   | "compat" =>
